@@ -1,2 +1,49 @@
-(* further dispatch (kernels, glue); extended as models are added *)
-let handle (toks : string list) : string = "ERROR unknown-case " ^ String.concat " " toks
+(* further dispatch (sorting checker, kernels, glue); extended as models are added *)
+open Model
+
+let rec pos_of_int (n : int) : positive =
+  if n = 1 then XH else if n land 1 = 1 then XI (pos_of_int (n lsr 1)) else XO (pos_of_int (n lsr 1))
+let z_of_int (n : int) : z = if n = 0 then Z0 else if n > 0 then Zpos (pos_of_int n) else Zneg (pos_of_int (- n))
+let rec int_of_pos (p : positive) : int = match p with XH -> 1 | XO q -> 2 * int_of_pos q | XI q -> 2 * int_of_pos q + 1
+let int_of_z (x : z) : int = match x with Z0 -> 0 | Zpos p -> int_of_pos p | Zneg p -> - (int_of_pos p)
+let explode (s : string) : char list = List.init (String.length s) (String.get s)
+let implode (l : char list) : string = String.of_seq (List.to_seq l)
+
+let rec take n l = if n = 0 then [] else match l with [] -> failwith "short" | x :: r -> x :: take (n - 1) r
+let rec drop n l = if n = 0 then l else match l with [] -> failwith "short" | _ :: r -> drop (n - 1) r
+
+let parse_outcome (toks : string list) : outcome =
+  match toks with
+  | "idx" :: r -> Indices (List.map (fun s -> z_of_int (int_of_string s)) r)
+  | "throw" :: e :: _ -> Thrown (explode e)
+  | _ -> Thrown (explode "unparsable")
+
+let split_bar toks =
+  let rec go acc = function [] -> (List.rev acc, []) | "|" :: r -> (List.rev acc, r) | x :: r -> go (x :: acc) r in
+  go [] toks
+
+let res_str (r : z res) : string =
+  match r with Ok v -> "ok " ^ string_of_int (int_of_z v) | Throw (e, _) -> "throw " ^ implode e
+
+let handle (toks : string list) : string =
+  match toks with
+  | "chk_argsort" :: rule :: n :: rest ->
+      let n = int_of_string n in
+      let (vs, out) = split_bar rest in
+      let vals = List.map (fun s -> ZR (z_of_int (int_of_string s))) (take n vs) in
+      if valid_argsort (z_of_int (int_of_string rule)) vals (parse_outcome out) then "ok" else "BAD"
+  | "chk_csort" :: which :: rule :: n :: rest ->
+      let n = int_of_string n in
+      let (vs, out) = split_bar rest in
+      let rec pairs = function a :: b :: r -> ZC (z_of_int (int_of_string a), z_of_int (int_of_string b)) :: pairs r | _ -> [] in
+      let vals = pairs (take (2 * n) vs) in
+      if valid_gen_sort (z_of_int (int_of_string rule)) vals (parse_outcome out) then "ok" else "BAD"
+  | ["dispatch"; name; rule] ->
+      let r = z_of_int (int_of_string rule) in
+      (match name with
+       | "argsort" -> res_str (argsort_dispatch r)
+       | "gen_select" -> res_str (gen_select_dispatch r)
+       | "gen_sort" -> res_str (gen_sort_dispatch r)
+       | "herm_sort" -> (match herm_sort_check r with Ok _ -> "ok" | Throw (e, _) -> "throw " ^ implode e)
+       | _ -> "ERROR unknown dispatch")
+  | _ -> "ERROR unknown-case " ^ String.concat " " toks
